@@ -28,7 +28,7 @@ def gen_faults(rng, world, n, kinds=('analysis_error', 'nan'), methods=None):
         c = rng.choice(comps)
         if methods:
             m = rng.choice(methods)
-        elif c['kind'] == 'imp':
+        elif c['kind'] in ('imp', 'imp2'):
             m = rng.choice(['solve_nonlinear', 'apply_nonlinear', 'linearize'])
         else:
             m = rng.choice(['compute', 'compute', 'compute_partials'])
@@ -696,7 +696,7 @@ class C01(HistoryCheck):
         k.update(cycle=rng.choice([0.0, 0.5, 1.0]), imp=rng.choice([0.0, 0.3]), quad=rng.choice([0.0, 0.4]),
                  scaling=rng.choice([0.0, 0.0, 0.4]), neg_scaling=True, res_ref=True,
                  mf=rng.choice([0.0, 0.0, 0.2]), nl=['nlbgs', 'newton', 'nlbj', 'broyden'], voi_units=0.3,
-                 sparse_decl=0.3, two_outs=0.4)
+                 sparse_decl=0.3, two_outs=0.4, imp2=0.4)
         return k
 
     def run_knobs(self, rng, world):
@@ -746,7 +746,7 @@ class C08(HistoryCheck):
         k = dict(ALL_KNOBS)
         k.update(cycle=rng.choice([0.0, 0.5, 1.0]), imp=rng.choice([0.0, 0.3]), quad=rng.choice([0.0, 0.4]),
                  scaling=0.6, neg_scaling=True, res_ref=True, mf=rng.choice([0.0, 0.0, 0.2]),
-                 nl=['nlbgs', 'newton', 'nlbj', 'broyden'], voi_units=0.2)
+                 nl=['nlbgs', 'newton', 'nlbj', 'broyden'], voi_units=0.2, imp2=0.4)
         return k
 
     def run_knobs(self, rng, world):
@@ -824,7 +824,7 @@ class C24(HistoryCheck):
                  quad=rng.choice([0.0, 0.3]), scaling=rng.choice([0.0, 0.3]), res_ref=True,
                  root_ln=['direct', 'direct_csc', 'runonce', 'lnbgs', 'lnbgs', 'lnbj', 'krylov'],
                  ln=['direct', 'direct_csc', 'lnbgs', 'lnbgs', 'lnbj', 'krylov'], voi_units=0.2, sparse_decl=0.4,
-                 two_outs=0.4)
+                 two_outs=0.4, imp2=0.5)
         return k
 
     def run_knobs(self, rng, world):
@@ -1459,7 +1459,7 @@ class C02(HistoryCheck):
                  rhs_checking=0.75,      # the reverse-mode right-hand-side cache is a fwd/rev asymmetry of its own
                  chain_resps=0.5,        # ... and is consulted only for responses that depend on other responses
                  tap=rng.choice([0.0, 0.5]),     # ... and answers when one response reads one entry of another
-                 sub_ln=rng.choice([0.0, 0.6]))
+                 sub_ln=rng.choice([0.0, 0.6]), imp2=0.4)
         return k
 
     def run_knobs(self, rng, world):
@@ -1619,7 +1619,7 @@ class C11(C02):
         k = dict(ALL_KNOBS)
         k.update(cycle=rng.choice([0.0, 0.5]), imp=rng.choice([0.0, 0.4]), quad=0.5, same_src=0.6,
                  scaling=rng.choice([0.0, 0.0, 0.3]), neg_scaling=True, res_ref=True, mf=0.0,
-                 nl=['nlbgs', 'newton', 'nlbj'], two_outs=0.4)
+                 nl=['nlbgs', 'newton', 'nlbj'], two_outs=0.4, imp2=0.4)
         return k
 
     def run_knobs(self, rng, world):
